@@ -227,6 +227,44 @@ def check_css(src, recs, ctx, au, positions=None):
                     ctx.sample({'stylesheet': src[:200], 'pos': pos, 'previous': is_prev, 'model': {'start': a[0], 'end': a[1], 'ranges': a[2]}})
 
 
+FILLERS = [' @include x;', '@extend .a;', ' b;', '\n@import "x";', ' @include mq(a) ;', 'margin:', ' @debug 1']
+
+
+def check_css_sanity(src, ctx, au):
+    """Stylesheets with colon-less statements (@include x; / @extend .a; / a name still being typed): the statement does not say
+    what the helpers return for them, so only what it says about EVERY result is judged - ranges lie inside the text, inside the
+    item, and never end before they start."""
+    n = len(src)
+    for pos in range(n + 1):
+        for prev in (False, True):
+            ctx.ev('css:position-with-statements')
+            ctx.mon('oracle:select_item_css-well-formed')
+            r = core.call(au.select_item_css, src, pos, prev)
+            case = {'lang': 'css-statements', 'src': src, 'pos': pos, 'previous': prev}
+            if r[0] == 'exc':
+                ctx.violation('exception', dict(case, fn='select_item_css'), {'exc': list(core.exc_site(r[1]))})
+                continue
+            it = r[1]
+            if it is None:
+                continue
+            ok = 0 <= it.start <= it.end <= n and all(it.start <= a <= b <= it.end for a, b in it.ranges)
+            if not ok:
+                ctx.violation('select-css-malformed', case, {'start': it.start, 'end': it.end, 'ranges': [list(x) for x in it.ranges][:6]})
+            else:
+                ctx.seen((src, pos, prev))
+        r = core.call(au.get_css_section, src, pos, True)
+        if r[0] == 'exc':
+            ctx.violation('exception', {'lang': 'css-statements', 'src': src, 'pos': pos, 'fn': 'get_css_section'}, {'exc': list(core.exc_site(r[1]))})
+        elif r[1] is not None:
+            s = r[1]
+            bad = not (0 <= s.start <= s.body_start <= s.body_end <= s.end <= n)
+            for pr in (s.properties or []):
+                if not (pr.name[0] <= pr.name[1] and pr.value[0] <= pr.value[1] and pr.before <= pr.name[0] and pr.value[1] <= pr.after):
+                    bad = True
+            if bad:
+                ctx.violation('section-malformed', {'lang': 'css-statements', 'src': src, 'pos': pos}, {'section': s.to_json()})
+
+
 def run_shard(desc, ctx):
     from emmet import action_utils as au
     rng = ctx.rng
@@ -240,10 +278,20 @@ def run_shard(desc, ctx):
             src, recs = gen_css.gen_sheet(rng, allow_nosemi=True)
         if len(src) <= (700 if k % 8 == 5 else 500):
             check_css(src, recs, ctx, au)
+        if k % 3 == 0 and len(src) <= 300:
+            # the same sheet with colon-less statements dropped in after declarations and rule starts
+            spots = [i + 1 for i, c in enumerate(src) if c in ';{' and not any(r['type'] == 'decl' and r['start'] <= i < (r['semi'] if r['semi'] is not None else r['end']) for r in recs)]
+            s2 = src
+            for sp in sorted(rng.sample(spots, min(len(spots), rng.randint(1, 3))), reverse=True):
+                s2 = s2[:sp] + rng.choice(FILLERS) + s2[sp:]
+            check_css_sanity(s2, ctx, au)
 
 
 def replay(case, ctx):
     from emmet import action_utils as au
+    if case['lang'] == 'css-statements':
+        check_css_sanity(case['src'], ctx, au)
+        return
     if case['lang'] == 'html':
         check_html(case['src'], gen_html.from_json(case['truth']), ctx, au, positions=[case['pos']])
     else:
